@@ -126,6 +126,7 @@ inductive Fail where
   | afterCommit   -- a manager after it raises in commit / one before it raises in tpc_vote
   | vote          -- the storage's tpc_vote raises
   | afterVote     -- a manager after it raises in tpc_vote / one before it raises in tpc_finish
+  | pickle (i : Nat)  -- pickling the state of object `i` raises (`__getstate__`, unpicklable value)
 deriving DecidableEq, Repr, Inhabited
 
 inductive Err where
@@ -388,13 +389,18 @@ def storeRec (s : State) (i : ObjId) (k : Oid) (r : Rec) : State × Option Err :
     | some e => (st.1, some e)
     | none => ({ st.1 with cache := st.1.cache.set k i }, none)
 
+/-- `writer.serialize(obj)`, first half: `obj.__getstate__()` — it raises for the object whose state
+    cannot be pickled (before anything else happens), otherwise it un-ghosts the object -/
+def pickleAccess (s : State) (i : ObjId) : State × Option Err :=
+  if s.fail = .pickle i then (s, some .injected) else access s i
+
 /-- one iteration of the loop of `_store_objects`; also returns the objects pushed on the stack -/
 def storeOne (s : State) (i : ObjId) : (State × Option Err) × List ObjId :=
   match (s.objs i).oid with
   | none => ((s, some .assertion), [])
   | some k =>
     -- `writer.serialize(obj)`: `__getstate__` un-ghosts, pickling assigns oids to new references
-    let a := access (classify s i k) i
+    let a := pickleAccess (classify s i k) i
     match a.2 with
     | some e => ((a.1, some e), [])
     | none =>
